@@ -83,3 +83,12 @@ def c11(F, R, tier):
 def c12(F, R, tier):
     import c12 as mod
     mod.check(F, R, get_grammar())
+
+
+@prop("C15",
+      technique="static: must-check rule (status read, status table, data-flow to with_status on typed HIR; dominance of value reads by the status call on MIR)",
+      explanation="Decides for every call of microlp::Problem::solve_with whose options are not provably default, and for the good_lp bridge: (a) Solution::status() is read; (b) its match maps Interrupted to Err, Feasible to SolutionStatus::Feasible, distinct from Optimal; (c) the mapped status flows into LpSolution::with_status; (d) on MIR the status() call dominates every read of the solution's objective/values, including closures that read them; (OPT-FORWARD) user options are stored into SolveOptions unmodified. NOT decided: what microlp does under a limit (documented dependency contract: limits return Ok with Status::Feasible/Interrupted; SolveOptions::validate rejects bad gaps).",
+      assumptions=["microlp 0.5.0 documented contract of solve_with/Status/var_value", "good_lp SolutionStatus contract"])
+def c15(F, R, tier):
+    import c15 as mod
+    mod.check(F, R)
